@@ -33,7 +33,7 @@ SEEDS = {
  "C10-2": ("C10", "pkg/state/impl/store/compression/zstd.go", "zstd decoder created with WithDecoderMaxMemory(1<<20) while the encoder has no limit",
            "the compression marshaler in the stack, an acknowledged resource whose encoding exceeds 1 MiB, and a restart/reopen of the bolt DB",
            "pkg/state/impl/store/bolt", "TestSeed2LargeResourceSurvivesRestart", ["C10", "C18"],
-           "the zstd library sits behind an assumed contract (decompress inverts compress); decoder options of a third-party library are not visible to any contract in reach"),
+           "first two evaluations: missed (the zstd library sits behind an assumed round-trip contract); the assumed contract of zstd.NewReader now requires every decoder option to be non-limiting - the round-trip assumption is only sound for such a decoder - and compression.ZStd is under contract"),
  "C11-1": ("C11", "pkg/state/protobuf/server/helpers.go", "ConvertLabelQuery: per-term `opts` hoisted out of the loop, so NotMatches leaks into the following terms",
            "one label query with at least two terms where an inverted term precedes a non-inverted one",
            "pkg/state/protobuf", "TestSeed1LabelQueryMixedInvert", ["C11"], ""),
@@ -58,7 +58,7 @@ SEEDS = {
  "C07-1": ("C07", "pkg/controller/generic/transform/controller.go", "processInputs keeps going to WriterModify after AddFinalizer on the input failed",
            "the input destroyed between the controller's List and its AddFinalizer call, or a fault at that call",
            "pkg/controller/generic/transform", "TestSeed1InputGoneBeforeFinalizer", ["C07"],
-           "transform.Controller.processInputs iterates with range-over-func, outside the accepted subset of govc (DESIGN.md 3.2); the same obligation is proved for qtransform.reconcileRunning"),
+           "first two evaluations: missed (transform.Controller.processInputs iterates with range-over-func, then outside the accepted subset); govc now verifies the loop body go/ssa makes of it (processInputs$1) as a function of its own, with [input-finalizer-before-output] asserted at the WriterModify call"),
  "C07-2": ("C07", "pkg/controller/generic/cleanup/cleanup.go", "combinedHandler.FinalizerRemoval continues past SkipReconcile errors and returns the last handler's result",
            "cleanup.Combine of two or more handlers where a non-last handler is still waiting and the last one has nothing left",
            "pkg/controller/generic/cleanup", "TestSeed2CombinedHandlerKeepsFinalizer", ["C07"],
@@ -92,7 +92,7 @@ SEEDS = {
  "C03-2": ("C03", "pkg/state/wrap.go", "waitFinalizersEmpty runs the empty-finalizers check only on Updated events (the initial Created snapshot is ignored)",
            "the last finalizer removed after the teardown marking but before the helper's Watch is registered",
            "pkg/state", "TestSeed2TeardownAndDestroyNoMissedWakeup", ["C03"],
-           "'TeardownAndDestroy always completes' is a liveness statement; the helper's event loop is not under contract (an assertion at the end of a loop iteration has no call site to attach to)"),
+           "first two evaluations: missed ('always completes' is a liveness statement and an assertion at the end of a loop iteration had no site to attach to); with `at backedge` blocks the helper's loop now carries the safety form [no-deciding-event-skipped]: an event showing an empty finalizer set is never passed over"),
  "C09-1": ("C09", "pkg/controller/runtime/internal/qruntime/internal/queue/queue.go", "a Put for an in-flight key stores the value only for the first notification during that hold",
            "at least two Puts with different values for the same key between Get and Release",
            "pkg/controller/runtime/internal/qruntime/internal/queue", "TestSeed1OnHoldCoalescesToMostRecentValue", ["C09"],
@@ -132,6 +132,13 @@ SEEDS = {
            "pkg/controller/runtime", "TestSeed2ConflictingInputsRejected", ["C17"],
            "first evaluation: missed; [conflicting-input-rejected] with the scan's loop invariant was added because of this seed (that binary search lands next to an equal-keyed input is an assumption at the call)"),
 }
+
+
+# later rounds are kept as data (seeded/round3.json), with the same fields
+_r3 = os.path.join(ROOT, "round3.json")
+if os.path.exists(_r3):
+    for sid, d in json.load(open(_r3)).items():
+        SEEDS[sid] = (d["property"], d["file"], d["change"], d["needs"], d["pkg"], d["test"], d["checks"], d.get("why", ""))
 
 
 def confirmation():
